@@ -295,4 +295,7 @@ MUTATIONS += [
     dict(id="r12b-tensordot-view-order", file=TOPT, old="        x = x.view(x.shape[0], x.shape[1], self._num_contract_units, self._num_batch_units)", new="        x = x.view(x.shape[0], x.shape[1], self._num_batch_units, self._num_contract_units).transpose(2, 3)", expect={"C02": ["R12b:cirkit.backend.torch.optimization.layers.apply_dense_tensordot"]}, allow_others=True),
     dict(id="r11e-complex-plain-log", patch="seeded/C13b/patch.diff", expect={"C13": ["R11e:"]}),
     dict(id="c13-requires-grad-key", patch="seeded/C13a/patch.diff", expect={"C13": ["R3d:"], "C17": ["R3d:"], "C02": ["R3d:"]}),
+    dict(id="r4i-dirichlet-transpose", file="cirkit/backend/torch/initializers.py", old="    tensor.copy_(torch.movedim(samples, -1, dim))", new="    tensor.copy_(torch.transpose(samples, dim, -1))", expect={"C17": ["R4i:cirkit.backend.torch.initializers.dirichlet_:dirichlet[rank=4,dim=1]"]}),
+    dict(id="r4i-dirichlet-wrong-dim", file="cirkit/backend/torch/initializers.py", old="    tensor.copy_(torch.movedim(samples, -1, dim))", new="    tensor.copy_(torch.movedim(samples, -1, dim - 1))", expect={"C17": ["R4i:cirkit.backend.torch.initializers.dirichlet_"]}),
+    dict(id="q-dirichlet-permute", file="cirkit/backend/torch/initializers.py", old="    tensor.copy_(torch.movedim(samples, -1, dim))", new="    order = list(range(len(shape) - 1))\n    order.insert(dim, len(shape) - 1)\n    tensor.copy_(samples.permute(order))", expect={}, quiet=True),
 ]
